@@ -97,7 +97,9 @@ Context::~Context()
     delete _returned;
   _returned = nullptr;
 
-  if (_fctm->getRoot() == this)
+  /* a child context only borrows the manager of its root, which could be
+   * already gone when a shared function definition outlives it in a clone */
+  if (_root == this && _fctm->getRoot() == this)
     delete _fctm;
   _fctm = nullptr;
 
